@@ -89,7 +89,7 @@ def run(ctx):
     bysig = {}
     for c in cases:
         bysig.setdefault((c["fn"], core.canon(c["types"])), []).append(c)
-    per = 60 if thorough else 12
+    per = 150 if thorough else 12
     cases = [c for k in sorted(bysig) for c in (bysig[k] if len(bysig[k]) <= per else rng.sample(bysig[k], per))]
     results = []
     for lo in range(0, len(cases), 6000):
@@ -179,7 +179,7 @@ def run(ctx):
             oks += 1
     # ---------------- (iv) queries against the plugin through the binary ----------------
     cli = climod.Cli(ctx)
-    n = 600 if thorough else 120
+    n = 1200 if thorough else 120
     jobs, meta = [], []
     for fam in ("single", "join"):
         ctx.tlc_ok("RelCases", rel.CFG % (fam, n), workers=1, timeout=3000, heap="12g")
